@@ -182,6 +182,10 @@ def job_list(ctx):
     for sc in scen:
         if len(sc) == 1 or (not quick and all(l == 12 for _, l in sc)):
             jobs.append((sc, 4, "default_ont", (), 0, ctx.scratch))
+    # reference sequence names that are equal under case-insensitive natural ordering (annotated=5)
+    for sc in scen:
+        if len(sc) == 1 or (not quick and all(l == 12 for _, l in sc)):
+            jobs.append((sc, 5, "default_ont", (), 0, ctx.scratch))
     # report_canonical levels / novel unspliced
     for sc in scen:
         if len(sc) <= (1 if quick else 2):
